@@ -325,7 +325,7 @@ func c02Tiny(o *cli.Opts, run *evid.Run) {
 				chosen := chooseWires(all, 3)
 				accepted := 0
 				odometer(len(chosen), func(vals []int64) bool {
-					if sys.Solve(delGadgetAssign(c), odometerHints(chosen, vals)).Accepted {
+					if sys.SolveWith(delGadgetAssign(c), odometerHints(chosen, vals)).Accepted {
 						accepted++
 						if !c.Valid {
 							run.Violate(fmt.Sprintf("%s/odometer/%v", key, vals), fmt.Sprintf("F47 deletion gadget accepts an invalid input with hint outputs %v", vals), c.Describe())
